@@ -19,6 +19,8 @@ use std::process::{Child, ChildStdin, ChildStdout, Command, Stdio};
 
 pub const STORAGE: &[&str] = &["classic", "xrefstream+objstm", "rc4-encrypted"];
 pub const RESOURCES: &[&str] = &["inherited-from-tree", "direct-per-page", "indirect-per-page", "one-shared-indirect"];
+/// how the source document is opened and used around the import
+pub const SOURCE_USE: &[&str] = &["uncached", "cached", "cached+streams-read-before-import"];
 pub const EXTRAS: &[&str] = &["acyclic-extras", "cyclic-extra(PieceInfo->object->page)", "shared-extra-on-two-pages"];
 
 /// three-page source document
@@ -238,17 +240,59 @@ fn raw_resources(r: &impl Resolve, page_ref: PlainRef) -> Option<Primitive> {
     None
 }
 
+fn show_res(r: &std::result::Result<Vec<u8>, String>) -> String {
+    match r {
+        Ok(d) => show_bytes(&d[..d.len().min(24)]),
+        Err(e) => format!("error {}", e),
+    }
+}
 /// one import case, executed inside the worker
 /// (every difference is reported, not only the first: a known finding on one resource must not hide the others)
-pub fn run_case(src: &[u8], pw: &[u8], selection: &[u32]) -> std::result::Result<String, Vec<(String, String)>> {
-    run_case_inner(src, pw, selection).map_err(|e| e).and_then(|(class, diffs)| if diffs.is_empty() { Ok(class) } else { Err(diffs) })
+pub fn run_case(src: &[u8], pw: &[u8], selection: &[u32], source_use: usize) -> std::result::Result<String, Vec<(String, String)>> {
+    run_case_inner(src, pw, selection, source_use).map_err(|e| e).and_then(|(class, diffs)| if diffs.is_empty() { Ok(class) } else { Err(diffs) })
 }
-fn run_case_inner(src: &[u8], pw: &[u8], selection: &[u32]) -> std::result::Result<(String, Vec<(String, String)>), Vec<(String, String)>> {
+/// decoded data of every stream object of a document (object number -> data or error variant)
+fn all_stream_data(r: &impl Resolve, max_nr: u64) -> Vec<(u64, std::result::Result<Vec<u8>, String>)> {
+    let mut v = vec![];
+    for nr in 1..=max_nr {
+        if let Ok(p @ Primitive::Stream(_)) = r.resolve(PlainRef { id: nr, gen: 0 }) {
+            let d = Stream::<()>::from_primitive(p, r).and_then(|s| s.data(r)).map(|d| d.to_vec()).map_err(|e| err_variant(&e));
+            v.push((nr, d));
+        }
+    }
+    v
+}
+fn run_case_inner(src: &[u8], pw: &[u8], selection: &[u32], source_use: usize) -> std::result::Result<(String, Vec<(String, String)>), Vec<(String, String)>> {
     let mut diffs: Vec<(String, String)> = vec![];
-    let src_file = match FileOptions::uncached().password(pw).load(src.to_vec()) {
+    // the reference for everything the source says: the same bytes opened without caches and never imported from
+    let pristine = match FileOptions::uncached().password(pw).load(src.to_vec()) {
         Ok(f) => f,
         Err(e) => return Ok((format!("source-does-not-load:{}", err_variant(&e)), vec![])),
     };
+    let max_nr = (pristine.trailer.size.max(1) as u64).min(400);
+    if source_use == 0 {
+        match FileOptions::uncached().password(pw).load(src.to_vec()) {
+            Ok(f) => import_and_compare(&f, &pristine, max_nr, selection, source_use, diffs),
+            Err(e) => Ok((format!("source-does-not-load:{}", err_variant(&e)), vec![])),
+        }
+    } else {
+        match FileOptions::cached().password(pw).load(src.to_vec()) {
+            Ok(f) => import_and_compare(&f, &pristine, max_nr, selection, source_use, diffs),
+            Err(e) => Ok((format!("source-does-not-load:{}", err_variant(&e)), vec![])),
+        }
+    }
+}
+type ImportResult = std::result::Result<(String, Vec<(String, String)>), Vec<(String, String)>>;
+fn import_and_compare<OC, SC, L>(src_file: &pdf::file::File<Vec<u8>, OC, SC, L>, pristine: &pdf::file::File<Vec<u8>, pdf::file::NoCache, pdf::file::NoCache, pdf::file::NoLog>, max_nr: u64, selection: &[u32], source_use: usize, mut diffs: Vec<(String, String)>) -> ImportResult
+where
+    OC: pdf::file::Cache<pdf::error::Result<pdf::any::AnySync, std::sync::Arc<pdf::error::PdfError>>>,
+    SC: pdf::file::Cache<pdf::error::Result<std::sync::Arc<[u8]>, std::sync::Arc<pdf::error::PdfError>>>,
+    L: pdf::file::Log,
+{
+    if source_use == 2 {
+        // a viewer has shown the document before the pages are imported
+        let _ = all_stream_data(&src_file.resolver(), max_nr);
+    }
     let mut builder = PdfBuilder::new(FileOptions::uncached());
     let mut pages = vec![];
     {
@@ -343,6 +387,17 @@ fn run_case_inner(src: &[u8], pw: &[u8], selection: &[u32]) -> std::result::Resu
             }
         }
     }
+    // the source document itself must answer as before the import
+    if source_use != 0 {
+        let want = all_stream_data(&pristine.resolver(), max_nr);
+        let got = all_stream_data(&src_file.resolver(), max_nr);
+        for ((nr, w), (_, g)) in want.iter().zip(got.iter()) {
+            if w != g {
+                diffs.push(("source-stream-data-changed-by-import".into(), format!("stream {} of the source reads {} after the import, {} in a fresh uncached open", nr, show_res(g), show_res(w))));
+                break;
+            }
+        }
+    }
     // sharing: the marker font (BaseFont /Helvetica, object 9 in the source) must exist at most once
     let mut helv = 0;
     let mut secret = 0;
@@ -382,7 +437,8 @@ pub fn worker_main() {
                 };
                 let (bytes, pw) = case_source(&v);
                 let sel: Vec<u32> = v["selection"].as_array().unwrap().iter().map(|x| x.as_u64().unwrap() as u32).collect();
-                let r = catch(|| run_case(&bytes, &pw, &sel));
+                let su = v["source_use"].as_u64().unwrap_or(0) as usize;
+                let r = catch(|| run_case(&bytes, &pw, &sel, su));
                 let resp = match r {
                     Err((loc, msg)) => json!({"fail": [panic_kind(&loc), msg]}),
                     Ok(Ok(class)) => json!({"ok": class}),
@@ -507,7 +563,15 @@ pub fn run(tier: Tier, _seed: u64, tally: &mut Tally) -> CheckMeta {
         for resources in 0..RESOURCES.len() {
             for extras in 0..EXTRAS.len() {
                 for sel in selections(3, 3) {
+                  for source_use in 0..SOURCE_USE.len() {
+                    // the cached variants on single pages and pairs; triples uncached only
+                    if source_use != 0 && sel.len() > 2 {
+                        continue;
+                    }
                     let mut devs = vec![];
+                    if source_use != 0 {
+                        devs.push(format!("source={}", SOURCE_USE[source_use]));
+                    }
                     if storage != 0 {
                         devs.push(format!("storage={}", STORAGE[storage]));
                     }
@@ -524,7 +588,8 @@ pub fn run(tier: Tier, _seed: u64, tally: &mut Tally) -> CheckMeta {
                     if sel.len() > 1 && sel[0] == sel[1] {
                         devs.push("same-page-twice".into());
                     }
-                    cases.push((json!({"engine": "c20.import", "storage": storage, "resources": resources, "extras": extras, "selection": sel}), devs));
+                    cases.push((json!({"engine": "c20.import", "storage": storage, "resources": resources, "extras": extras, "selection": sel, "source_use": source_use}), devs));
+                  }
                 }
             }
         }
@@ -539,7 +604,13 @@ pub fn run(tier: Tier, _seed: u64, tally: &mut Tally) -> CheckMeta {
             continue;
         }
         for sel in [vec![0u32], vec![0, 0], vec![0, 1], vec![1, 0]] {
-            cases.push((json!({"engine": "c20.import", "corpus": n, "selection": sel}), vec![format!("corpus={}", n)]));
+            for source_use in 0..SOURCE_USE.len() {
+                let mut devs = vec![format!("corpus={}", n)];
+                if source_use != 0 {
+                    devs.push(format!("source={}", SOURCE_USE[source_use]));
+                }
+                cases.push((json!({"engine": "c20.import", "corpus": n, "selection": sel, "source_use": source_use}), devs));
+            }
         }
     }
     let n_cases = cases.len();
@@ -572,7 +643,7 @@ pub fn run(tier: Tier, _seed: u64, tally: &mut Tally) -> CheckMeta {
     CheckMeta {
         prop: "C20",
         level: "model_checking",
-        rule: format!("generated three-page source documents: full product of storage {:?} x resource placement {:?} x extra page entries {:?} x every ordered selection of 1..3 pages (incl. the same page twice), plus the corpus files x 4 selections: {} import cases, each executed in a worker process through one Importer into one PdfBuilder, built, reloaded. Oracle: boxes, rotation, operation sequence (C08 comparator); for every resource name the operations use (fonts, XObjects, ext-gstates, colour spaces, patterns, shadings, properties) deep equality of the resource between source and new document (dictionaries entry by entry, stream data by decoded bytes); extra page entries deep-equal; the independent structural reader finds no reference to an undefined object; shared source objects exist once; an import error is allowed, a panic / stack overflow / abort / hang is not.", STORAGE, RESOURCES, EXTRAS, n_cases),
+        rule: format!("generated three-page source documents: full product of storage {:?} x resource placement {:?} x extra page entries {:?} x every ordered selection of 1..3 pages (incl. the same page twice) x source use {:?} (cached variants for selections of 1-2 pages), plus the corpus files x 4 selections x source use: {} import cases, each executed in a worker process through one Importer into one PdfBuilder, built, reloaded. Oracle: boxes, rotation, operation sequence (C08 comparator); for every resource name the operations use (fonts, XObjects, ext-gstates, colour spaces, patterns, shadings, properties) deep equality of the resource between source and new document (dictionaries entry by entry, stream data by decoded bytes); extra page entries deep-equal; the independent structural reader finds no reference to an undefined object; shared source objects exist once; with a cached source every stream of the source must decode after the import to what a fresh uncached open gives; an import error is allowed, a panic / stack overflow / abort / hang is not.", STORAGE, RESOURCES, EXTRAS, SOURCE_USE, n_cases),
         assumptions: vec!["annotations are not part of what PageBuilder::clone_page copies and are not compared".into()],
         exhaustive: true,
         bounds: json!({"pages_per_import": 3}),
